@@ -81,8 +81,16 @@ def exclTags (ps : PState) (toks : List String) : List String × Bool :=
       | some (_, x), some (bid, y), some rid =>
         (rid == bid || (match reuse with | some r => overlaps r y | none => false)) && ((isCmp && same) || (!isCmp && (x.requiresIterator || y.requiresIterator || x.ap.o.col != y.ap.o.col)))
       | _, _, _ => false
+    -- F10 (same root cause, incr destinations): the increment tensor shares storage cells with an operand through a
+    -- *different* access pattern (e.g. the operand is the reshaped parent of the destination view): the in-place
+    -- loop reads operand cells it has already incremented
+    let samePattern (p q : Dense) : Bool := p.win.off == q.win.off && p.win.len == q.win.len && p.ap.shape == q.ap.shape && p.ap.strides == q.ap.strides
+    let incrDst := (opts.find? (·.startsWith "incr=")).bind (fun t => (ps.obj (t.drop 5).toString).map (·.2))
+    let f10 := f10 || (match incrDst with
+      | some d => [oa, ob].any (fun o => match o with | some (_, x) => overlaps d x && !samePattern d x | none => false)
+      | none => false)
     -- F32: incr mode with one-element operands: `Vec<Op>(a, b)` clobbers the first operand
-    let oneCell (o : Option (Nat × Dense)) (tok : String) := match o with | some (_, d) => d.win.len == 1 | none => tok.startsWith "#"
+    let oneCell (o : Option (Nat × Dense)) (tok : String) := match o with | some (_, d) => d.win.len == 1 || isScalar d.shape | none => tok.startsWith "#"
     let f32 := incr && oneCell oa a && oneCell ob b && !isCmp
     -- F33: unsafe scalar-left comparison on a one-element tensor: result written to the scalar's temporary
     let f33 := isCmp && uns && a.startsWith "#" && (match ob with | some (_, d) => d.win.len == 1 | none => false)
